@@ -71,6 +71,10 @@ macro_rules! readonly_impl {
             ///
             /// * `value` - the value to check.
             pub fn contains(&self, value: &V) -> bool {
+                if self.is_empty() {
+                    return false;
+                }
+
                 let mut hasher = DefaultHasher::new();
                 value.hash(&mut hasher);
                 let index = hasher.finish() as u32 % self.allocator.get_field(Field::Capacity);
